@@ -328,6 +328,28 @@ func (t fty) body(prefix string) []string {
 // declarations go to the same file (FSame) or to foo/v1/types.j5s (FOther).
 func (p propT) Text() map[string]string {
 	t := p.Shape.Item
+	var sb strings.Builder
+	sb.WriteString("package foo.v1\n\nobject Foo {\n")
+	for _, l := range p.fieldLines("f") {
+		sb.WriteString("  " + l + "\n")
+	}
+	sb.WriteString("}\n")
+	out := map[string]string{}
+	switch t.Ref {
+	case rMsgSame, rEnumSame:
+		sb.WriteString("\n" + refDecls)
+	case rMsgOther, rEnumOther:
+		out["foo/v1/types.j5s"] = "package foo.v1\n\n" + refDecls
+	}
+	out["foo/v1/a.j5s"] = sb.String()
+	return out
+}
+
+const refDecls = "object Bar {\n  field x string\n}\n\noneof Choice {\n  option x object {\n    field y string\n  }\n}\n\nenum Kind {\n  option A\n  option B\n}\n"
+
+// fieldLines renders the property as `field <name> ...` (unindented lines).
+func (p propT) fieldLines(name string) []string {
+	t := p.Shape.Item
 	spec := t.typeSpec()
 	prefix := ""
 	switch p.Shape.Kind {
@@ -369,28 +391,14 @@ func (p propT) Text() map[string]string {
 			body = append(body, "rules.minItems = 1")
 		}
 	}
-	var sb strings.Builder
-	sb.WriteString("package foo.v1\n\nobject Foo {\n")
 	if len(body) == 0 {
-		fmt.Fprintf(&sb, "  field f %s%s\n", marker, spec)
-	} else {
-		fmt.Fprintf(&sb, "  field f %s%s {\n", marker, spec)
-		for _, l := range body {
-			sb.WriteString("    " + l + "\n")
-		}
-		sb.WriteString("  }\n")
+		return []string{fmt.Sprintf("field %s %s%s", name, marker, spec)}
 	}
-	sb.WriteString("}\n")
-	decls := "object Bar {\n  field x string\n}\n\noneof Choice {\n  option x object {\n    field y string\n  }\n}\n\nenum Kind {\n  option A\n  option B\n}\n"
-	out := map[string]string{}
-	switch t.Ref {
-	case rMsgSame, rEnumSame:
-		sb.WriteString("\n" + decls)
-	case rMsgOther, rEnumOther:
-		out["foo/v1/types.j5s"] = "package foo.v1\n\n" + decls
+	out := []string{fmt.Sprintf("field %s %s%s {", name, marker, spec)}
+	for _, l := range body {
+		out = append(out, "  "+l)
 	}
-	out["foo/v1/a.j5s"] = sb.String()
-	return out
+	return append(out, "}")
 }
 
 // ---- enumeration of the expressible field types ----
